@@ -126,9 +126,12 @@ def normFields : Fields → List (Cbor × Cbor) → Option (List (Cbor × Cbor))
   | .cons k s optional rest, kvs =>
     match lookup k kvs with
     | none => if optional then normFields rest kvs else none
-    | some v => match norm s v, normFields rest kvs with
-      | some v', some out => some ((k, v') :: out)
-      | _, _ => none
+    | some v =>
+      -- `Option<T>`: an explicit null is `None`, and `None` is not emitted
+      if optional && v == .simple 22 then normFields rest kvs
+      else match norm s v, normFields rest kvs with
+        | some v', some out => some ((k, v') :: out)
+        | _, _ => none
 def normFirst : SchList → Cbor → Option Cbor
   | .nil, _ => none
   | .cons s rest, c => match norm s c with
@@ -197,6 +200,73 @@ def confFields : Fields → List (Cbor × Cbor) → Bool
 def confAny : SchList → Cbor → Bool
   | .nil, _ => false
   | .cons s rest, c => conf s c || confAny rest c
+end
+
+end IsoMdl.Schema
+
+namespace IsoMdl.Schema
+open IsoMdl IsoMdl.Cbor
+
+/-- the head test of a schema: which items it can accept at all, judged by the outermost kind -/
+def accepts : Sch → Cbor → Bool
+  | .any, _ => true
+  | .uint, c => match c with | .uint _ => true | _ => false
+  | .int, c => match c with | .uint _ => true | .nint _ => true | _ => false
+  | .text, c => match c with | .text _ => true | _ => false
+  | .bytes, c => match c with | .bytes _ => true | _ => false
+  | .bool, c => match c with | .simple 20 => true | .simple 21 => true | _ => false
+  | .null, c => match c with | .simple 22 => true | _ => false
+  | .lit l, c => c == l
+  | .tagged t _, c => match c with | .tag t' _ => t' == t | _ => false
+  | .embedded _, c => match c with | .tag 24 (.bytes _) => true | _ => false
+  | .arr _ _, c => match c with | .array _ => true | _ => false
+  | .tuple _, c => match c with | .array _ => true | _ => false
+  | .struct _, c => match c with | .map _ => true | _ => false
+  | .dict _ _ _, c => match c with | .map _ => true | _ => false
+  | .oneOf _, _ => false
+
+/-- outermost-kind classes used to tell untagged alternatives apart syntactically -/
+inductive Head where
+  | uint | nint | text | bytes | bool | null | arr | map | tag (t : Nat) | other
+  deriving DecidableEq, Repr
+
+def headsOf : Sch → List Head
+  | .uint => [.uint] | .int => [.uint, .nint] | .text => [.text] | .bytes => [.bytes] | .bool => [.bool] | .null => [.null]
+  | .tagged t _ => [.tag t] | .embedded _ => [.tag 24] | .arr _ _ => [.arr] | .tuple _ => [.arr]
+  | .struct _ => [.map] | .dict _ _ _ => [.map]
+  | _ => [.other]          -- any, lit, oneOf: not usable as an alternative
+
+def headOfCbor : Cbor → Head
+  | .uint _ => .uint | .nint _ => .nint | .text _ => .text | .bytes _ => .bytes
+  | .simple 20 => .bool | .simple 21 => .bool | .simple 22 => .null
+  | .array _ => .arr | .map _ => .map | .tag t _ => .tag t | _ => .other
+
+def SchList.toList : SchList → List Sch
+  | .nil => []
+  | .cons s rest => s :: rest.toList
+
+/-- alternatives are told apart by their outermost kind: pairwise disjoint head classes, none `other` -/
+def altsOk : List Sch → Bool
+  | [] => true
+  | s :: rest => !(headsOf s).contains .other && rest.all (fun r => (headsOf s).all fun h => !(headsOf r).contains h) && altsOk rest
+
+mutual
+/-- every untagged alternative below is decided by the outermost kind -/
+def unions : Sch → Bool
+  | .tagged _ s => unions s
+  | .embedded s => unions s
+  | .arr s _ => unions s
+  | .tuple ss => unionsList ss
+  | .struct fs => unionsFields fs
+  | .dict _ v _ => unions v
+  | .oneOf ss => altsOk ss.toList && unionsList ss
+  | _ => true
+def unionsList : SchList → Bool
+  | .nil => true
+  | .cons s rest => unions s && unionsList rest
+def unionsFields : Fields → Bool
+  | .nil => true
+  | .cons _ s _ rest => unions s && unionsFields rest
 end
 
 end IsoMdl.Schema
